@@ -94,16 +94,18 @@ def api_single(ctx, specs, ads, opts, read):
     cutter = AdapterCutter(ads, times=opts["times"], action=action, index=False)
     rcm = ReverseComplementer(cutter, rc_suffix=opts["suffix"])
     q = "".join(chr(33 + (i * 11) % 41) for i in range(len(read)))
-    rec = SequenceRecord("r1 c", read, q)
+    # names are free text: some already end in what the suffix would add (output of an earlier --revcomp pass)
+    nm = ("r1 c", "r1 c", "r1", "second_pass rc", "r1 comment rc", "x_rc", "r1 c rc rc")[(len(read) + sum(map(ord, read[:5]))) % 7]
+    rec = SequenceRecord(nm, read, q)
     fwd_t, fwd_m = cutter.match_and_trim(rec[:])
-    rev_in = SequenceRecord("r1 c", R.revcomp(read), q[::-1])
+    rev_in = SequenceRecord(nm, R.revcomp(read), q[::-1])
     rev_t, rev_m = cutter.match_and_trim(rev_in[:])
     fs, rs = sum(m.score for m in fwd_m), sum(m.score for m in rev_m)
     use = bool(rev_m) and rs > fs
     # the stage may receive a read that earlier stages have already shortened: the record as read from the input
     # (kept in the ModificationInfo) is then longer than the read the stage works on
     if len(read) % 2 == 0:
-        orig = SequenceRecord("r1 c", "GT" + read + "C", "II" + q + "I")
+        orig = SequenceRecord(nm, "GT" + read + "C", "II" + q + "I")
         info = ModificationInfo(orig)
         ctx.count("stage_input_shorter_than_original_read")
     else:
@@ -171,7 +173,8 @@ def api_paired(ctx, specs1, ads1, specs2, ads2, opts, r1s, r2s):
     c2 = AdapterCutter(ads2, times=opts["times"], action=action, index=False) if ads2 else None
     prc = PairedReverseComplementer(c1, c2, rc_suffix=opts["suffix"])
     mk = lambda n, s: SequenceRecord(n, s, "".join(chr(33 + (i * 7) % 41) for i in range(len(s))))
-    r1, r2 = mk("p x", r1s), mk("p y", r2s)
+    pn = ("p", "p", "pair_second_pass rc", "p rc")[(len(r1s) + len(r2s)) % 4]
+    r1, r2 = mk(pn + " x" if not pn.endswith("rc") else pn, r1s), mk(pn + " y" if not pn.endswith("rc") else pn, r2s)
 
     def mt(c, r):
         return c.match_and_trim(r[:]) if c is not None else (r, [])
